@@ -16,14 +16,13 @@
    * c04_history: Inv after every history of ComputeNow operations (fold_left from the empty store,
      failed operations leave the store unchanged).
    * c04_queries: under Inv, `e in a`, is_ancestor_of and the ancestor listing are characterised by
-     e = a \/ reach.  (is_ancestor_of a e for e PRESENT is reach only — it is not reflexive, exactly
-     as the code; for e absent it is a = e.)
+     e = a \/ reach, for all pairs, present or absent (is_ancestor_of is reflexive since /repo 13ea66c).
    * c04_enforce, c04_enforce_closed: enforce_tc_and_dag = Ok implies the store is transitively
      closed and loop-free, hence contains every reachable uid and is acyclic.
    NOT proved (correspondence only): that the incremental layer (i_add / i_upsert / i_remove: strip +
    repair_tc + self-loop test on touched nodes, as coded) refines the spec layer; and the SCC-based
    compute_tc, which the model represents by its contract (recompute). *)
-From Cedar Require Import TC TCProofs.
+From Cedar Require Import TC TCProofs TCIncProofs.
 Open Scope N_scope.
 
 Theorem c04_closure_correct : forall g u c, closure g u = Some c -> forall a, In a c <-> reach g u a.
@@ -70,8 +69,7 @@ Print Assumptions c04_history.
 
 Theorem c04_queries : forall s, Inv s ->
   (forall e a, q_in s e a = true <-> (e = a \/ reach (graph_of s) e a)) /\
-  (forall a e, q_is_ancestor_of s a e = true <->
-               (reach (graph_of s) e a \/ (find e s = None /\ a = e))) /\
+  (forall a e, q_is_ancestor_of s a e = true <-> (a = e \/ reach (graph_of s) e a)) /\
   (forall u, match q_ancestors s u with
              | Some l => forall a, In a l <-> reach (graph_of s) u a
              | None => find u s = None /\ forall a, ~ reach (graph_of s) u a
@@ -113,6 +111,53 @@ Theorem c04_inc_edit_parents_partial : forall s o,
 Proof. exact inc_edit_parents. Qed.
 Print Assumptions c04_inc_edit_parents_partial.
 
+(* ---- incremental layer: repair_tc as coded (add_ancestors DFS with seen/explored, fuel) ----
+   c04_repair_correct (b, and c in the acyclic case): for ANY store and touched set such that
+   (i) every cached ancestor is justified by a path (Sound), (ii) every entity outside the touched set
+   already lists everything it reaches (complete), (iii) the parent graph is acyclic:
+   `repair` does not run out of fuel, passes the self-loop test on the touched nodes, leaves the direct
+   parents unchanged and makes every entity's ancestors exactly `reach`. *)
+Theorem c04_repair_correct : forall s T,
+  Sound (graph_of s) s ->
+  (forall x, In x (keys s) -> ~ In x T -> complete (graph_of s) s x) ->
+  acyclic (graph_of s) ->
+  exists s', repair T s = TOk s' /\ graph_of s' = graph_of s
+             /\ forall u n, find u s' = Some n -> forall a, In a (ancestors n) <-> reach (graph_of s) u a.
+Proof. exact repair_correct. Qed.
+Print Assumptions c04_repair_correct.
+
+(* c04_inc_refines_add_partial (a + b): add_entities(ComputeNow), any batch, any store with Inv.
+   If the map edit fails (duplicate) both layers fail with the same error; if the edited parent graph is
+   acyclic both layers succeed with equal direct parents and equal ancestor sets (the touched set computed
+   by the code — the added uids plus every entity with a touched ancestor — leaves only complete entities
+   untouched).  MISSING for the full refinement: when the edited graph has a cycle the spec layer rejects
+   (c04_spec_op_cycle_rejected) but that the coded DFS + self-loop test on touched nodes also rejects is
+   not proved (correspondence only). *)
+Theorem c04_inc_refines_add_partial : forall s es,
+  Inv s ->
+  match insert_all s es with
+  | TErr e => i_add true s es = TErr e /\ s_compute s (OAdd true es) = TErr e
+  | TOk s1 => acyclic (graph_of s1) ->
+              exists si ss, i_add true s es = TOk si /\ s_compute s (OAdd true es) = TOk ss /\ agree si ss
+  end.
+Proof.
+  intros s es HI. destruct (insert_all s es) as [s1|e] eqn:E.
+  - intros Hacy. eapply inc_refines_add; eassumption.
+  - apply inc_add_error; exact E.
+Qed.
+Print Assumptions c04_inc_refines_add_partial.
+
+(* c04_inc_refines_remove_partial (a + b + c): remove_entities(ComputeNow) of ONE uid (present or absent)
+   from any store with Inv: both layers succeed (no cycle can arise), with equal direct parents and equal
+   ancestor sets — stripping removes nothing that is not recomputed, untouched entities stay complete, an
+   ancestor reachable both through the removed entity and through a sibling is kept/recovered.
+   MISSING: batches of several uids (the code strips against partially stripped intermediate states). *)
+Theorem c04_inc_refines_remove_partial : forall s u,
+  Inv s ->
+  exists si ss, i_remove true s [u] = TOk si /\ s_compute s (ORemove true [u]) = TOk ss /\ agree si ss.
+Proof. exact inc_refines_remove_one. Qed.
+Print Assumptions c04_inc_refines_remove_partial.
+
 (* ---- non-vacuity: concrete histories ---- *)
 (* diamond 0 -> {1,2} -> 3 -> 4, then remove 1 (one of two paths): 3 and 4 stay ancestors of 0;
    then remove 2 (the only remaining path): nothing survives *)
@@ -146,5 +191,28 @@ Proof. repeat split; vm_compute; reflexivity. Qed.
 Example ex_queries :
   let s := run_ops s_op ex_ops in
   (q_in s 0 0, q_is_ancestor_of s 0 0, q_is_ancestor_of s 9 9, q_in s 0 4, q_is_ancestor_of s 4 0, q_in s 0 1)
-  = (true, false, true, true, true, false).
+  = (true, true, true, true, true, false).
+Proof. vm_compute. reflexivity. Qed.
+
+(* hypotheses of c04_repair_correct / c04_inc_refines_* are satisfiable: the diamond store has Inv (c04_history),
+   adding 5 -> 0 and 4 -> 6 (4 was a dangling parent) keeps the graph acyclic and both layers agree *)
+Definition agree_b (r1 r2 : tres store) (ks : list uid) : bool :=
+  match r1, r2 with
+  | TOk a, TOk b =>
+      forallb (fun k => match find k a, find k b with
+                        | Some x, Some y => set_eqb (ancestors x) (ancestors y) && set_eqb (n_parents x) (n_parents y)
+                        | None, None => true
+                        | _, _ => false
+                        end) ks
+  | _, _ => false
+  end.
+Example ex_inc_add :
+  let s := run_ops s_op ex_ops in
+  agree_b (i_add true s [(5, [0]); (4, [6])]) (s_compute s (OAdd true [(5, [0]); (4, [6])])) [0; 1; 2; 3; 4; 5; 6] = true
+  /\ option_map (fun n => set_eqb (ancestors n) [2; 3; 4; 6])
+       (find 0 (match i_add true s [(5, [0]); (4, [6])] with TOk x => x | TErr _ => [] end)) = Some true.
+Proof. split; vm_compute; reflexivity. Qed.
+Example ex_inc_remove :
+  let s := run_ops s_op [OFrom true [(0, [1; 2]); (1, [3]); (2, [3]); (3, [4])]] in
+  agree_b (i_remove true s [1]) (s_compute s (ORemove true [1])) [0; 1; 2; 3; 4] = true.
 Proof. vm_compute. reflexivity. Qed.
